@@ -154,9 +154,11 @@ class IdentityCommunity(Community):
         if transaction["name"] != self.known_attestation_hashes[attribute_hash][0]:
             self.logger.debug("Not signing %s, name does not match!", str(metadata))
             return False
+        # Compare the serialized forms: in Python True == 1 == 1.0, which are different values in JSON.
         if (self.known_attestation_hashes[attribute_hash][3] is not None
-                and ({k: v for k, v in transaction.items() if k not in ["name", "date", "schema"]}
-                     != self.known_attestation_hashes[attribute_hash][3])):
+                and (json.dumps({k: v for k, v in transaction.items() if k not in ["name", "date", "schema"]},
+                                sort_keys=True)
+                     != json.dumps(self.known_attestation_hashes[attribute_hash][3], sort_keys=True))):
             self.logger.debug("Not signing %s, metadata does not match!", str(metadata))
             return False
         if metadata.get_hash() in self.attested_metadata:
